@@ -272,6 +272,15 @@ func c03Case(c *fw.Case) {
 	mods := []mod{
 		{"suffixData.deltaHash-letter-case-swapped", func(q map[string]interface{}) { sd(q)["deltaHash"] = caseSwap(fmt.Sprint(sd(q)["deltaHash"])) }},
 		{"suffixData.deltaHash-one-char", func(q map[string]interface{}) { sd(q)["deltaHash"] = oneChar(fmt.Sprint(sd(q)["deltaHash"])) }},
+		{"suffixData.deltaHash-padded", func(q map[string]interface{}) {
+			sd(q)["deltaHash"] = fmt.Sprint(sd(q)["deltaHash"]) + fw.Pick(r, []string{"=", "==", "==="})
+		}},
+		{"suffixData.recoveryCommitment-padded", func(q map[string]interface{}) {
+			sd(q)["recoveryCommitment"] = fmt.Sprint(sd(q)["recoveryCommitment"]) + fw.Pick(r, []string{"=", "=="})
+		}},
+		{"delta.updateCommitment-padded", func(q map[string]interface{}) {
+			dl(q)["updateCommitment"] = fmt.Sprint(dl(q)["updateCommitment"]) + fw.Pick(r, []string{"=", "=="})
+		}},
 		{"suffixData.recoveryCommitment-one-char", func(q map[string]interface{}) {
 			sd(q)["recoveryCommitment"] = oneChar(fmt.Sprint(sd(q)["recoveryCommitment"]))
 		}},
@@ -312,6 +321,10 @@ func c03Case(c *fw.Case) {
 				"add-also-known-as": "add-alsoKnownAs", "remove-also-known-as": "remove-alsoKnownAs", "ietf-json-patch": "json-patch", "replace": "replace-document"}
 			pm["action"] = fw.Pick(r, []string{legacy[act], legacy[act], strings.ToUpper(act), " " + act, act + " ", strings.Title(act)})
 			ps[i] = pm
+		}},
+		{"delta.patch-appended-that-outgrows-the-delta-size-limit", func(q map[string]interface{}) {
+			// (well-formed content; only its size is beyond what the protocol takes: refused outside batch mode, bound or not)
+			dl(q)["patches"] = append(append([]interface{}{}, dl(q)["patches"].([]interface{})...), gen.PAddAka("https://big.example/"+strings.Repeat("a", int(st.P.MaxDeltaSize)+100)))
 		}},
 		{"delta.patch-value-modified", func(q map[string]interface{}) {
 			ps := dl(q)["patches"].([]interface{})
